@@ -943,7 +943,12 @@ class Constraints:
         # delta: 3
 
         if decimals >= delta:
-            return round(value, decimals - delta)
+            rounded = round(value, decimals - delta)
+            # rounding can carry into a new digit (99.99 -> 100.0), so the rounded value is checked again
+            if cls._parse_decimal(rounded) == (digits, decimals):
+                # cannot get any shorter (a float always renders one decimal place)
+                return rounded
+            return cls.lax_max_digits(rounded, max_digits)
         raise ValueError
 
     @classmethod
